@@ -14,6 +14,7 @@ import (
 	"fmt"
 	"io"
 	"net/http"
+	"sort"
 	"strings"
 	"sync"
 	"time"
@@ -344,6 +345,169 @@ func scenario(c *ev.Check, removal, phase string) {
 	_ = io.EOF
 }
 
+// ---------------------------------------------------------------------------------------------------------------
+// lifecycle x removal: what the endpoint went through BEFORE it is removed (added by an update, disabled and enabled
+// again, removed and re-added ...) decides which code path installed its probe loop. Probing is observed at the stub
+// upstream itself (arrivals of the gateway's /healthz probes), not on a context flag.
+
+const probeInterval = 10 * time.Millisecond
+const probeWindow = 600 * time.Millisecond
+
+// A probe loop that has been cancelled can still deliver a bounded number of probes, whatever the timing: the one in
+// flight, the token buffered in its channel, and one more tick that raced the cancellation. A loop that was not
+// stopped delivers about probeWindow/probeInterval = 60.
+const maxProbesAfterStop = 3
+
+func withE1(a1, a2 *e2e.Upstream, state string) *proxyv1alpha1.UpstreamCluster {
+	var o *proxyv1alpha1.UpstreamCluster
+	switch state {
+	case "absent":
+		o = e2e.ClusterObject("a", a2)
+	default:
+		o = e2e.ClusterObject("a", a1, a2)
+		if state == "disabled" {
+			t := true
+			o.Spec.Servers[0].Disabled = &t
+		}
+	}
+	return o
+}
+
+var lifecycles = map[string][]string{
+	"added by an update":              {"enabled"},
+	"added disabled, then enabled":    {"disabled", "enabled"},
+	"disabled, then enabled":          {"enabled", "disabled", "enabled"},
+	"disabled and enabled twice":      {"enabled", "disabled", "enabled", "disabled", "enabled"},
+	"removed and re-added":            {"enabled", "absent", "enabled"},
+	"currently disabled":              {"enabled", "disabled"},
+	"re-added disabled, then enabled": {"enabled", "absent", "disabled", "enabled"},
+}
+
+func lifecycle(c *ev.Check, life, removal string) {
+	label := fmt.Sprintf("lifecycle=[%s] removal=[%s]", life, removal)
+	viol := func(key, f string, a ...interface{}) {
+		c.Violation(key, label+": "+fmt.Sprintf(f, a...), map[string]string{"lifecycle": life, "removal": removal})
+	}
+	ctl := ctlrig.New()
+	r := e2e.NewWithManager(ctl.C)
+	a1, a2, b1 := e2e.NewUpstream("a-e1"), e2e.NewUpstream("a-e2"), e2e.NewUpstream("b-e1")
+	defer func() {
+		r.GW.CloseClientConnections()
+		r.Close()
+		a1.Close()
+		a2.Close()
+		b1.Close()
+	}()
+	if _, err := ctl.Apply(withE1(a1, a2, "absent")); err != nil {
+		c.EngineError("apply a: " + err.Error())
+		return
+	}
+	ciA, _ := ctl.C.Get("a")
+	if ciA == nil {
+		c.EngineError(label + ": cluster a was not created")
+		return
+	}
+	ciA.VerifSetHealthCheckInterval(probeInterval) // every probe loop installed from here on ticks fast
+	gen := int64(1)
+	apply := func(o *proxyv1alpha1.UpstreamCluster) bool {
+		gen++
+		o.Generation = gen
+		o.ResourceVersion = fmt.Sprint(gen)
+		if res, err := ctl.Apply(o); err != nil || res.RequeueAfter > 0 {
+			c.EngineError(fmt.Sprintf("%s: spec update refused: %v %+v", label, err, res))
+			return false
+		}
+		return true
+	}
+	last := ""
+	for _, st := range lifecycles[life] {
+		if !apply(withE1(a1, a2, st)) {
+			return
+		}
+		last = st
+		if st == "enabled" {
+			// let the (re)installed loop run: the endpoint becomes ready and probes arrive
+			if !waitReady(ciA, a1.URL()) {
+				c.EngineError(label + ": e1 did not become ready after being enabled")
+				return
+			}
+			m := a1.ProbeCount()
+			deadline := time.Now().Add(5 * time.Second)
+			for a1.ProbeCount() < m+3 && time.Now().Before(deadline) {
+				time.Sleep(5 * time.Millisecond)
+			}
+			if a1.ProbeCount() < m+3 {
+				c.EngineError(label + ": an enabled endpoint is not being probed at the rig's interval; the window after the removal would show nothing")
+				return
+			}
+		}
+	}
+	e1Info, _ := ciA.Endpoints.Load(a1.URL())
+	if e1Info == nil {
+		c.EngineError(label + ": e1 unknown before its removal")
+		return
+	}
+	a1.Requests()
+	a2.Requests()
+	// ---- the removal
+	switch removal {
+	case "remove endpoint e1":
+		if !apply(withE1(a1, a2, "absent")) {
+			return
+		}
+	case "delete cluster":
+		_, _ = ctl.Delete(withE1(a1, a2, last))
+	case "delete cluster, re-create it without e1":
+		_, _ = ctl.Delete(withE1(a1, a2, last))
+		if !apply(withE1(a1, a2, "absent")) {
+			return
+		}
+		if ci, ok := ctl.C.Get("a"); !ok || !waitReady(ci, a2.URL()) {
+			c.EngineError(label + ": the re-created cluster did not become ready")
+			return
+		}
+	}
+	c.Add("scenarios", 1)
+	mark1, mark2 := a1.ProbeCount(), a2.ProbeCount()
+	codes := map[int]int{}
+	for i := 0; i < 6; i++ {
+		if resp, _, err := r.Do("GET", "a", "/api/v1/pods", nil, nil); err == nil {
+			codes[resp.StatusCode]++
+		}
+	}
+	time.Sleep(probeWindow)
+	after1 := a1.ProbeCount() - mark1
+	h1 := len(a1.Requests())
+	c.Outcome("outcomes", fmt.Sprintf("%s/%s/%v/e1hits=%d/probed=%v", life, removal, codes, h1, after1 > maxProbesAfterStop))
+	if after1 > maxProbesAfterStop {
+		viol("removed-endpoint-still-probed", "%d health probes reached the removed endpoint in the %v after its removal (a stopped loop can deliver at most %d)", after1, probeWindow, maxProbesAfterStop)
+	}
+	if h1 != 0 {
+		viol("removed-endpoint-still-picked", "the removed endpoint received %d of 6 new requests", h1)
+	}
+	if e1Info.Context().Err() == nil {
+		viol("removed-endpoint-context-live", "the removed endpoint's context is still live")
+	}
+	if removal != "delete cluster" {
+		// the endpoint that stays is still served and still probed
+		if codes[200] != 6 {
+			viol("remaining-endpoint-affected", "6 new requests after the removal got %v", codes)
+		}
+		if removal == "remove endpoint e1" {
+			deadline := time.Now().Add(5 * time.Second)
+			for a2.ProbeCount() == mark2 && time.Now().Before(deadline) {
+				time.Sleep(5 * time.Millisecond)
+			}
+			if a2.ProbeCount() == mark2 {
+				viol("remaining-endpoint-not-probed", "the endpoint that stays received no health probe within 5 s after e1 was removed (its loop ticks every %v)", probeInterval)
+			}
+		}
+	} else if codes[503] != 6 {
+		viol("deleted-cluster-still-served", "6 new requests for the deleted cluster got %v", codes)
+	}
+	_ = b1
+}
+
 func (g *gate) send() {}
 
 func main() {
@@ -351,7 +515,7 @@ func main() {
 	c.Assume = []string{
 		"real UpstreamClusterController (harness as informer and worker) behind the real proxy handler chain over loopback HTTP/1.1, real health probes against stub upstreams; requests are pinned to endpoints by policy subsets",
 		"exhaustive over (removal kind x victim request phase) with bystanders present, NOT over thread schedules; 'promptly' = within 10 s, 'next chunk' = within 5 s (generous: only a context cancellation / one write is awaited)",
-		"'health probing stops' is decided on the removed endpoint's context being cancelled (the probe loops select on it); probe timing itself is checked in C03",
+		"'health probing stops' is decided twice: on the removed endpoint's context being cancelled, and (lifecycle scenarios) on the probes that actually arrive at the stub upstream in the 600 ms after the removal with 10 ms probe loops: more than 3 arrivals = not stopped (a cancelled loop can deliver at most the probe in flight, the buffered token and one racing tick, whatever the timing; a live loop delivers about 60)",
 	}
 	removals := []string{"delete cluster", "remove endpoint e1", "delete and re-create cluster"}
 	phases := []string{"not issued", "blocked before headers", "streaming", "completed"}
@@ -362,10 +526,21 @@ func main() {
 			tasks = append(tasks, ev.Task{Name: rm + "/" + ph, Run: func() { scenario(c, rm, ph) }})
 		}
 	}
+	var lives []string
+	for l := range lifecycles {
+		lives = append(lives, l)
+	}
+	sort.Strings(lives)
+	for _, l := range lives {
+		for _, rm := range []string{"remove endpoint e1", "delete cluster", "delete cluster, re-create it without e1"} {
+			l, rm := l, rm
+			tasks = append(tasks, ev.Task{Name: "lifecycle/" + l + "/" + rm, Run: func() { lifecycle(c, l, rm) }})
+		}
+	}
 	c.RunTasks(tasks)
 	c.Finish(map[string]interface{}{
 		"evaluations":         c.Counter("scenarios"),
 		"distinct_nontrivial": c.DistinctCount("outcomes"),
-		"rule":                "full matrix: 3 removal kinds x 4 phases of the victim request, each with a watch on the same cluster's other endpoint, a watch on another cluster and new requests to both; distinct = (removal, phase, status codes of 20 new requests, upstream hits).",
+		"rule":                "full matrix: 3 removal kinds x 4 phases of the victim request, each with a watch on the same cluster's other endpoint, a watch on another cluster and new requests to both; plus 7 endpoint lifecycles (added by update / disabled+enabled / re-added ...) x 3 removal kinds with probe arrivals counted at the stub upstream; distinct = (removal, phase or lifecycle, status codes of new requests, upstream hits).",
 	})
 }
